@@ -179,6 +179,12 @@ int o_history(unsigned n, const int* ops, const int* args, int* out_has, int* ou
                 break;
             case 6: // read
                 break;
+            case 7: // copy-assign the optional to itself (through a reference, as pool[i] = pool[j] with i == j does)
+            {
+                const opt& same = *o[s];
+                *o[s] = same;
+                break;
+            }
             }
             for (int t = 0; t < 2; ++t)
             {
